@@ -10,8 +10,10 @@ import Cx.Spec.GoRef
       accepts (compileUTF8Range lo hi) bs ↔ ∃ r, lo ≤ r ≤ hi ∧ isScalar r ∧ bs = encode r
     and `utf8RangeSeqs_exact` in the form with `hi ≤ 0x10FFFF` and "no surrogate in [lo, hi]".
   * `classSeqs_exact`: all three paths of `compileCharClass` (ASCII Sparse, ≤ 256 runes literal alternation, large),
-    with the two deviations stated exactly; `classSeqs_exact_of_exactClass` under the decidable predicate `exactClass`.
-  * witnesses: `small_class_surrogate_defect`, `large_class_surrogate_ok`, `covers_all_accepts_invalid_byte`.
+    with the one deviation (lone byte ≥ 0x80 in an any-non-ASCII class) stated exactly; `classSeqs_exact_of_exactClass`
+    under the decidable predicate `exactClass`.
+  * witnesses: `small_class_surrogate_fixed`, `all_surrogate_class_empty`, `large_class_surrogate_ok`,
+    `covers_all_accepts_invalid_byte`.
 -/
 namespace Cx.Utf8Range
 open Cx.Utf8
@@ -463,9 +465,8 @@ theorem encodeRune_scalar (r : Nat) (h : isScalar r) : encodeRune r = encode r :
       · rename_i c1 c2 c3
         rw [encode_4 (by omega) h1, lead4_eq r (by omega), cont2_eq, cont1_eq, cont0_eq]; rfl
 
-theorem encodeRune_surrogate (r : Nat) (h1 : 0xD800 ≤ r) (h2 : r ≤ 0xDFFF) : encodeRune r = enc3 r := by
-  unfold encodeRune
-  rw [if_neg (by omega), if_neg (by omega), if_pos (by omega), lead3_eq r (by omega), cont1_eq, cont0_eq]; rfl
+theorem isSurrogate_iff (r : Nat) : isSurrogate r = true ↔ 0xD800 ≤ r ∧ r ≤ 0xDFFF := by
+  unfold isSurrogate; simp
 
 /-- the three ways `compileCharClass` can go -/
 def allASCII (ranges : List (Nat × Nat)) : Bool := ranges.all fun rng => decide (rng.1 ≤ 127) && decide (rng.2 ≤ 127)
@@ -489,13 +490,20 @@ theorem ascii_path (ranges : List (Nat × Nat)) (ha : allASCII ranges = true) (b
     refine ⟨_, List.mem_map.mpr ⟨p, hp, rfl⟩, (matchesSeq1 _ _).mpr ⟨r, rfl, ?_, ?_⟩⟩ <;> simp only [byte] <;> omega
 
 theorem small_path (ranges : List (Nat × Nat)) (bs : List Nat) :
-    accepts (ranges.flatMap fun rng => forRange rng.1 rng.2 fun r => [(encodeRune r).map fun b => (b, b)]) bs = true ↔
-      ∃ r, inR r ranges ∧ bs = encodeRune r := by
+    accepts (ranges.flatMap fun rng => forRange rng.1 rng.2 fun r =>
+        if isSurrogate r then [] else [(encodeRune r).map fun b => (b, b)]) bs = true ↔
+      ∃ r, inR r ranges ∧ ¬ (0xD800 ≤ r ∧ r ≤ 0xDFFF) ∧ bs = encodeRune r := by
   rw [accepts_flatMap]
-  simp only [accepts_forRange, accepts_single, matchesSeq_lit]
+  simp only [accepts_forRange]
   constructor
-  · rintro ⟨p, hp, r, h1, h2, rfl⟩; exact ⟨r, ⟨p, hp, h1, h2⟩, rfl⟩
-  · rintro ⟨r, ⟨p, hp, h1, h2⟩, rfl⟩; exact ⟨p, hp, r, h1, h2, rfl⟩
+  · rintro ⟨p, hp, r, h1, h2, h3⟩
+    by_cases hs : isSurrogate r = true
+    · rw [if_pos hs, accepts_nil] at h3; exact absurd h3 (by decide)
+    · rw [if_neg hs, accepts_single, matchesSeq_lit] at h3
+      exact ⟨r, ⟨p, hp, h1, h2⟩, fun h => hs ((isSurrogate_iff r).mpr h), h3⟩
+  · rintro ⟨r, ⟨p, hp, h1, h2⟩, hs, rfl⟩
+    refine ⟨p, hp, r, h1, h2, ?_⟩
+    rw [if_neg (fun h => hs ((isSurrogate_iff r).mp h)), accepts_single, matchesSeq_lit]
 
 theorem asciiPart_spec (ranges : List (Nat × Nat)) (hwf : wfRanges ranges = true) (bs : List Nat) :
     accepts ((asciiPart ranges).map fun t => [t]) bs = true ↔ ∃ r, inR r ranges ∧ r < 0x80 ∧ bs = [r] := by
@@ -686,17 +694,17 @@ theorem large_path (ranges : List (Nat × Nat)) (hwf : wfRanges ranges = true) (
       · exact absurd h hc
 
 /-- **What the class automaton accepts, exactly** (all three paths of `compileCharClass`): the encodings of the
-scalar values of the class, plus — and these are the only deviations —
+scalar values of the class, plus — and this is the only deviation —
 * any single byte `0x80–0xFF` when the class is compiled by `compileUnicodeClassLarge` and its non-ASCII part is the
-  single range `0x80–0x10FFFF` (deliberate: `regexp` decodes an ill-formed byte as U+FFFD, which such a class contains);
-* the three bytes `ED A0–BF 80–BF` of a surrogate member when the class has at most 256 runes (alternation of literals
-  through `encodeRune`, which has no surrogate check) — a defect, see `small_class_surrogate_defect`. -/
+  single range `0x80–0x10FFFF` (deliberate: `regexp` decodes an ill-formed byte as U+FFFD, which such a class contains).
+
+Surrogate members contribute nothing on any path: `compileUTF8Range` cuts them out of the 3-byte ranges, the
+literal-alternation path (at most 256 runes) skips them (`small_class_surrogate_fixed`). -/
 theorem classSeqs_exact (ranges : List (Nat × Nat)) (hwf : wfRanges ranges = true) (bs : List Nat) :
     accepts (classSeqs ranges) bs = true ↔
       (∃ r, inR r ranges ∧ isScalar r ∧ bs = encode r) ∨
-      (usesLarge ranges = true ∧ coversAllNonASCII (nonAsciiPart ranges) = true ∧ ∃ b, 0x80 ≤ b ∧ b ≤ 0xFF ∧ bs = [b]) ∨
-      (usesSmall ranges = true ∧ ∃ r, inR r ranges ∧ 0xD800 ≤ r ∧ r ≤ 0xDFFF ∧ bs = enc3 r) := by
-  unfold classSeqs compileCharClass usesLarge usesSmall
+      (usesLarge ranges = true ∧ coversAllNonASCII (nonAsciiPart ranges) = true ∧ ∃ b, 0x80 ≤ b ∧ b ≤ 0xFF ∧ bs = [b]) := by
+  unfold classSeqs compileCharClass usesLarge
   by_cases hnil : ranges = []
   · subst hnil
     simp [accepts_nil, inR, allASCII]
@@ -728,47 +736,38 @@ theorem classSeqs_exact (ranges : List (Nat × Nat)) (hwf : wfRanges ranges = tr
       · rw [if_neg he, small_path]
         have hef : exceeds256 ranges 0 = false := by simpa using he
         rw [hef]
-        simp only [Bool.not_false, Bool.and_self, Bool.and_false, Bool.false_eq_true, false_and, false_or, true_and]
+        simp only [Bool.not_false, Bool.and_false, Bool.false_eq_true, false_and, or_false]
         constructor
-        · rintro ⟨r, ⟨p, hp, h1, h2⟩, rfl⟩
+        · rintro ⟨r, ⟨p, hp, h1, h2⟩, hs, rfl⟩
           have hw := wf_mem hwf hp
-          by_cases hs : 0xD800 ≤ r ∧ r ≤ 0xDFFF
-          · exact Or.inr ⟨r, ⟨p, hp, h1, h2⟩, hs.1, hs.2, encodeRune_surrogate r hs.1 hs.2⟩
-          · have hsc : isScalar r := ⟨by unfold maxRune; omega, hs⟩
-            exact Or.inl ⟨r, ⟨p, hp, h1, h2⟩, hsc, encodeRune_scalar r hsc⟩
-        · rintro (⟨r, h1, h2, rfl⟩ | ⟨r, h1, h2, h3, rfl⟩)
-          · exact ⟨r, h1, (encodeRune_scalar r h2).symm⟩
-          · exact ⟨r, h1, (encodeRune_surrogate r h2 h3).symm⟩
+          have hsc : isScalar r := ⟨by unfold maxRune; omega, hs⟩
+          exact ⟨r, ⟨p, hp, h1, h2⟩, hsc, encodeRune_scalar r hsc⟩
+        · rintro ⟨r, h1, h2, rfl⟩
+          exact ⟨r, h1, h2.2, (encodeRune_scalar r h2).symm⟩
 
 
 /-! ### corollaries, preconditions, witnesses -/
 
-/-- decidable precondition under which the class automaton is exact: well-formed ranges, not the
-"any non-ASCII" shortcut, and no surrogates in a class small enough for the literal-alternation path -/
+/-- decidable precondition under which the class automaton is exact: well-formed ranges and not the
+"any non-ASCII" shortcut (surrogate members need no exclusion: they are skipped on every path) -/
 def exactClass (ranges : List (Nat × Nat)) : Bool :=
   wfRanges ranges &&
-  !(usesLarge ranges && coversAllNonASCII (nonAsciiPart ranges)) &&
-  (!usesSmall ranges || ranges.all fun p => decide (p.2 < 0xD800) || decide (0xDFFF < p.1))
+  !(usesLarge ranges && coversAllNonASCII (nonAsciiPart ranges))
 
 /-- **Class-level corollary**: for a class satisfying `exactClass`, the automaton accepts exactly the UTF-8 encodings
 of the scalar values of the class. -/
 theorem classSeqs_exact_of_exactClass (ranges : List (Nat × Nat)) (h : exactClass ranges = true) (bs : List Nat) :
     accepts (classSeqs ranges) bs = true ↔ ∃ r, isScalar r ∧ inR r ranges ∧ bs = encode r := by
   unfold exactClass at h
-  simp only [Bool.and_eq_true, Bool.or_eq_true, Bool.not_eq_true', Bool.and_eq_false_iff] at h
-  obtain ⟨⟨hwf, hcov⟩, hsm⟩ := h
+  simp only [Bool.and_eq_true, Bool.not_eq_true', Bool.and_eq_false_iff] at h
+  obtain ⟨hwf, hcov⟩ := h
   rw [classSeqs_exact ranges hwf]
   constructor
-  · rintro (⟨r, h1, h2, rfl⟩ | ⟨h1, h2, -⟩ | ⟨h1, r, ⟨p, hp, h2, h3⟩, h4, h5, -⟩)
+  · rintro (⟨r, h1, h2, rfl⟩ | ⟨h1, h2, -⟩)
     · exact ⟨r, h2, h1, rfl⟩
     · rcases hcov with hcov | hcov
       · rw [h1] at hcov; exact absurd hcov (by decide)
       · rw [h2] at hcov; exact absurd hcov (by decide)
-    · rcases hsm with hsm | hsm
-      · rw [h1] at hsm; exact absurd hsm (by decide)
-      · have := List.all_eq_true.mp hsm p hp
-        simp only [Bool.or_eq_true, decide_eq_true_eq] at this
-        omega
   · rintro ⟨r, h1, h2, rfl⟩
     exact Or.inl ⟨r, h2, h1, rfl⟩
 
@@ -802,15 +801,64 @@ theorem not_encoding_of_decode {bs : List Nat} {w : Nat} {x : Nat} (hd : decodeA
   rw [List.append_nil, hd] at this
   exact hw (congrArg Prod.snd this)
 
-/-- **Defect (small classes and literals with surrogates)**: `[\x{D7FF}-\x{D800}]` has 2 runes, is compiled as an
-alternation of literals through `encodeRune`, and accepts the ill-formed bytes `ED A0 80`, which are not the encoding
-of any scalar value (`regexp` never matches them: it decodes three U+FFFD). -/
-theorem small_class_surrogate_defect :
-    wfRanges [(0xD7FF, 0xD800)] = true ∧
-    accepts (classSeqs [(0xD7FF, 0xD800)]) [0xED, 0xA0, 0x80] = true ∧
-    ¬ ∃ r, isScalar r ∧ [0xED, 0xA0, 0x80] = encode r := by
-  refine ⟨by decide, by decide, ?_⟩
-  exact not_encoding_of_decode (w := 1) (x := 0xFFFD) (by decide) (by decide)
+/-- a class on the literal-alternation path whose members are all surrogates emits no sequence at all (the code:
+`len(alts) == 0` → `compileNoMatch`, a Fail state) -/
+theorem small_all_surrogate_nil (ranges : List (Nat × Nat)) (hsm : usesSmall ranges = true)
+    (hs : ∀ p, p ∈ ranges → ∀ r, p.1 ≤ r → r ≤ p.2 → 0xD800 ≤ r ∧ r ≤ 0xDFFF) : classSeqs ranges = [] := by
+  unfold usesSmall at hsm
+  simp only [Bool.and_eq_true, Bool.not_eq_true'] at hsm
+  obtain ⟨ha, he⟩ := hsm
+  unfold classSeqs compileCharClass
+  by_cases hnil : ranges = []
+  · rw [if_pos hnil]
+  · unfold allASCII at ha
+    rw [if_neg hnil, if_neg (by rw [ha]; decide)]
+    unfold compileUnicodeClass
+    rw [if_neg hnil, if_neg (by rw [he]; decide)]
+    rw [List.flatMap_eq_nil_iff]
+    intro p hp
+    unfold forRange
+    rw [List.flatMap_eq_nil_iff]
+    intro r hr
+    rw [List.mem_range'_1] at hr
+    rw [if_pos ((isSurrogate_iff r).mpr (hs p hp r hr.1 (by omega)))]
+
+/-- **Small classes with surrogates (fixed, b9d1f3d)**: `[\x{D7FF}-\x{D800}]` has 2 runes and is compiled as an
+alternation of literals; the surrogate member is skipped, so the ill-formed bytes `ED A0 80` (not the encoding of any
+scalar value; `regexp` decodes them as three U+FFFD) are rejected while U+D7FF = `ED 9F BF` is still accepted; and a
+class made of surrogates only, `[\x{D800}-\x{D8FF}]` (256 runes, small path), emits no sequence and accepts nothing. -/
+theorem small_class_surrogate_fixed :
+    wfRanges [(0xD7FF, 0xD800)] = true ∧ usesSmall [(0xD7FF, 0xD800)] = true ∧
+    accepts (classSeqs [(0xD7FF, 0xD800)]) [0xED, 0xA0, 0x80] = false ∧
+    accepts (classSeqs [(0xD7FF, 0xD800)]) [0xED, 0x9F, 0xBF] = true ∧
+    (¬ ∃ r, isScalar r ∧ [0xED, 0xA0, 0x80] = encode r) ∧
+    usesSmall [(0xD800, 0xD8FF)] = true ∧ classSeqs [(0xD800, 0xD8FF)] = [] ∧
+    ∀ bs, accepts (classSeqs [(0xD800, 0xD8FF)]) bs = false := by
+  have h : classSeqs [(0xD800, 0xD8FF)] = [] :=
+    small_all_surrogate_nil _ (by decide) (by
+      intro p hp r h1 h2
+      cases List.mem_singleton.mp hp
+      simp only at h1 h2
+      omega)
+  refine ⟨by decide, by decide, by decide, by decide, ?_, by decide, h, ?_⟩
+  · exact not_encoding_of_decode (w := 1) (x := 0xFFFD) (by decide) (by decide)
+  · intro bs
+    rw [h, accepts_nil]
+
+/-- in general: a well-formed class all of whose members are surrogates accepts nothing, whatever the path -/
+theorem all_surrogate_class_empty (ranges : List (Nat × Nat)) (hwf : wfRanges ranges = true)
+    (hs : ∀ r, inR r ranges → 0xD800 ≤ r ∧ r ≤ 0xDFFF) (bs : List Nat) : accepts (classSeqs ranges) bs = false := by
+  cases hacc : accepts (classSeqs ranges) bs with
+  | false => rfl
+  | true =>
+    exfalso
+    rcases (classSeqs_exact ranges hwf bs).mp hacc with ⟨r, h1, h2, -⟩ | ⟨-, hc, -⟩
+    · exact h2.2 (hs r h1)
+    · obtain ⟨lo, hi, hnon, hl, hh⟩ := covers_shape hc
+      have : inR 0x80 (nonAsciiPart ranges) := by
+        rw [hnon]; exact ⟨(lo, hi), List.mem_singleton.mpr rfl, by simp only; omega, by simp only; omega⟩
+      have := hs 0x80 ((nonAsciiPart_spec ranges 0x80).mp this).1
+      omega
 
 /-- the same class compiled by the large path skips the surrogates: `[\x{D000}-\x{EFFF}]` rejects `ED A0 80` -/
 theorem large_class_surrogate_ok : accepts (classSeqs [(0xD000, 0xEFFF)]) [0xED, 0xA0, 0x80] = false := by
@@ -819,10 +867,9 @@ theorem large_class_surrogate_ok : accepts (classSeqs [(0xD000, 0xEFFF)]) [0xED,
   | false => rfl
   | true =>
     exfalso
-    rcases h.mp hacc with ⟨r, -, hs, he⟩ | ⟨-, hc, -⟩ | ⟨hsm, -⟩
+    rcases h.mp hacc with ⟨r, -, hs, he⟩ | ⟨-, hc, -⟩
     · exact not_encoding_of_decode (w := 1) (x := 0xFFFD) (by decide) (by decide) ⟨r, hs, he⟩
     · exact absurd hc (by decide)
-    · exact absurd hsm (by decide)
 
 /-- **Deliberate deviation (`coversAllNonASCII`)**: `[^,]` accepts the lone byte `FF`, which is not an encoding -/
 theorem covers_all_accepts_invalid_byte :
@@ -849,6 +896,8 @@ example (bs : List Nat) :
 
 /-- Greek and Coptic letters with a small (≤ 256 runes) companion class: `[α-ω]` goes through the literal path -/
 example : exactClass [(0x3B1, 0x3C9)] = true ∧ usesSmall [(0x3B1, 0x3C9)] = true := by decide
+/-- a small class with surrogate members now satisfies the precondition as well -/
+example : exactClass [(0xD7FF, 0xD800)] = true ∧ usesSmall [(0xD7FF, 0xD800)] = true := by decide
 example : exactClass [(0x370, 0x3FF), (0x1F00, 0x1FFF)] = true ∧ usesLarge [(0x370, 0x3FF), (0x1F00, 0x1FFF)] = true := by
   decide
 
